@@ -11,7 +11,7 @@
    on the real code by the check); what is proved is the pair under the exact boolean
    preconditions [sound_excl] / [compl_excl] (disjunctions of the recorded classes) and
    [in_scope] (the annotation vocabulary the property text speaks about). *)
-From Gleece Require Import Base.Bytes Model.Annot Model.Linker Proofs.LinkerProofs.
+From Gleece Require Import Base.Bytes Model.Annot Model.Linker Proofs.LinkerProofs Model.CtlSelf Proofs.CtlSelfProofs.
 
 (* extractUrlParams computes the {names} of a template as the property text defines them *)
 Theorem C10_url_params_spec : forall t, extract_url_params t = template_names t.
@@ -146,6 +146,32 @@ Example C10_nonvacuous_declared_together :
       /\ type_diag 2 demo_trace PHeader = []).
 Proof. exact demo_grouped_facts. Qed.
 
+(* The controller's OWN annotations (Model/CtlSelf.v: ControllerValidator.validateSelf).  An error there - an
+   annotation name gleece does not know, an annotation without its required value - blocks the command whatever the
+   controller exposes: its methods are universally quantified (no method at all, only methods that are no endpoints,
+   endpoints).  [ctl_comment_in_error] is written from the text; the validator's case analysis agrees with it. *)
+Theorem C10_controller_error_iff : forall attrs,
+  no_error (ctl_self_diags attrs) = negb (ctl_comment_in_error attrs).
+Proof. exact ctl_self_error_iff. Qed.
+
+Theorem C10_controller_error_blocks_whatever_it_exposes : forall gen p before c,
+  In c p -> ctl_comment_in_error (c_attrs c) = true ->
+  run_project gen p before = (ExitFail, before).
+Proof. exact ctl_error_blocks_whatever_it_exposes. Qed.
+
+Theorem C10_project_output_only_without_controller_errors : forall gen p before fs',
+  run_project gen p before = (ExitOk, fs') ->
+  forall c, In c p -> ctl_comment_in_error (c_attrs c) = false.
+Proof. exact run_project_ok_clean. Qed.
+
+(* non-vacuity: a stub with a misspelt @Tag whose only method lost its @Method, next to a well-formed controller *)
+Example C10_nonvacuous_controller_stub : forall gen before,
+  endpoints {| c_attrs := demo_ctl_typo; c_routes := [demo_stub_method] |} = []
+  /\ ctl_comment_in_error demo_ctl_typo = true
+  /\ run_project gen [ {| c_attrs := demo_ctl_ok; c_routes := [demo_ok] |};
+                       {| c_attrs := demo_ctl_typo; c_routes := [demo_stub_method] |} ] before = (ExitFail, before).
+Proof. exact stub_with_typo_blocks. Qed.
+
 Print Assumptions C10_url_params_spec.
 Print Assumptions C10_sound_partial.
 Print Assumptions C10_complete_partial.
@@ -166,3 +192,7 @@ Print Assumptions C10_nonvacuous_props_warning.
 Print Assumptions C10_each_parameter_type_diags_reported.
 Print Assumptions C10_declared_together_judged_separately.
 Print Assumptions C10_nonvacuous_declared_together.
+Print Assumptions C10_controller_error_iff.
+Print Assumptions C10_controller_error_blocks_whatever_it_exposes.
+Print Assumptions C10_project_output_only_without_controller_errors.
+Print Assumptions C10_nonvacuous_controller_stub.
